@@ -3,7 +3,7 @@
 import json, os, shutil, subprocess, sys
 prop, which, slug, needs = sys.argv[1:5]
 src = "/tmp/wt/%s-out" % prop
-if prop.startswith(("R2", "R3", "R4", "R5", "R6", "R7", "R8", "R9")):
+if prop.startswith(("R2", "R3", "R4", "R5", "R6", "R7", "R8", "R9", "RA")):
     prop = prop[2:]
 patch = os.path.join(src, "%s.patch" % which)
 demo = os.path.join(src, "%s_demo.rs" % which)
